@@ -39,6 +39,9 @@ var libPinList = []libPin{
 	{"strings.Split", "GOROOT", "src/strings", "strings.go", "Split"},
 	{"strings.genSplit", "GOROOT", "src/strings", "strings.go", "genSplit"},
 	{"strings.Join", "GOROOT", "src/strings", "strings.go", "Join"},
+	{"strings.SplitN", "GOROOT", "src/strings", "strings.go", "SplitN"}, // SplitN(s, sep, -1) is read as Split(s, sep) (inline.go)
+	{"strconv.Itoa", "GOROOT", "src/strconv", "itoa.go", "Itoa"},
+	{"sha256.Sum256", "GOROOT", "src/crypto/sha256", "sha256.go", "Sum256"}, // Sum256(b) is read as New/Write/Sum (translate.go)        // Itoa(i) is read as FormatInt(int64(i), 10) (inline.go)
 	{"pbkdf2.Key", "golang.org/x/crypto", "pbkdf2", "pbkdf2.go", "Key"},
 	{"norm.Form.String", "golang.org/x/text", "unicode/norm", "normalize.go", "Form.String"},
 	{"norm.doAppendInner", "golang.org/x/text", "unicode/norm", "normalize.go", "doAppendInner"},
